@@ -41,7 +41,8 @@ fn img(prog: usize, n: usize) -> Img {
 
 /// Holder action before a step: 0 none, 1 hold keyboard, 2 hold display, 3 hold keyboard and append a byte on release, 4 hold display and drain it on release,
 /// 5 / 6: hold keyboard / display as a reader (shared guard, e.g. a front end rendering the buffer),
-/// 7 / 8: the holder of the keyboard / display lock dies while holding it just before the step (the lock is poisoned and free)
+/// 7 / 8: the holder of the keyboard / display lock dies while holding it just before the step (the lock is poisoned and free),
+/// 9: a device requests a priority-4 interrupt at this step (ISR: push R0, clobber, pop, RTI) — interrupt entry shares the supervisor stack with the OS routines
 type Sched = Vec<(u32, u8)>;
 
 struct Obs { received: Vec<u8>, output_expected: Vec<u8>, shown: Vec<u8>, sent: Vec<u8>, steps: usize, halted: bool, stale: u64, dropped: u64, unwaited: (u64, u64) }
@@ -53,6 +54,8 @@ fn machine(prog: usize, init: &[u8], total: usize) -> (Machine, u16) {
     m.regs = [0, 0, 0, 0, 0, 0, 0xFD00, 0];
     m.kb = Some(init.to_vec());
     m.pokes.extend(im.words.iter().copied());
+    for (k, w) in [0x1DBFu16, 0x7180, 0x5020, 0x6180, 0x1DA1, 0x8000].iter().enumerate() { m.pokes.push((0x1F00 + k as u16, *w)); }
+    m.pokes.push((0x0190, 0x1F00));
     (m, im.buf)
 }
 
@@ -62,6 +65,8 @@ fn run_boundary(prog: usize, init: &[u8], sched: &Sched) -> Result<Obs, (String,
     let total = if prog == 3 { 3 } else { init.len() + appends };
     let (m, buf) = machine(prog, init, total);
     let mut p = build(&m);
+    let irqs: Vec<u64> = sched.iter().filter(|s| s.1 == 9).map(|s| s.0 as u64).collect();
+    if !irqs.is_empty() { p.add_source(0x90, 4, irqs); }
     let what = if sched.len() > 24 { format!("program {prog} input {init:x?} schedule of {} acting boundaries from step {} to {} (action {})", sched.len(), sched[0].0, sched[sched.len() - 1].0, sched[0].1) } else { format!("program {prog} input {init:x?} schedule {sched:?}") };
     let mut sent: Vec<u8> = init.to_vec(); let mut drained: Vec<u8> = vec![];
     let mut next_byte = b'p';
@@ -221,7 +226,7 @@ fn record(acc: &mut Acc, r: Result<(usize, Vec<&'static str>), (String, String)>
 }
 
 pub fn run(ctx: &Ctx) -> Report {
-    let mut rep = Report::new("4 programs (GETC/OUT echo loop recording what it received; GETC xN then PUTS; a supervisor-mode KBSR/KBDR + DSR/DDR polling loop without the OS; OUT of 3 fixed bytes) x inputs of length 0-3; 'another thread' is played by the harness taking the real RwLock write guard: boundary mode (quick and thorough): before each step the holder is absent / holds the keyboard / holds the display / holds the keyboard and appends a byte on release / holds the display and drains it on release / holds the keyboard or the display as a reader (shared guard) / the holder of the keyboard or display lock dies while holding it (poisoned lock); every pattern with <=2 (thorough 3) acting boundaries over the run, and ALL 2^n hold patterns over the first n=14 (thorough 18) boundaries of the single-byte programs; each run in lock-step with RefLC3 (which encodes the two known findings exactly: a DDR write under a held display lock is dropped, a KBDR read under a held keyboard lock returns the stale value and consumes nothing); attempt mode (thorough, hook H3): the lock is held at individual try_write attempts, every set of <=2 attempts. Oracle: bytes received (recorded by the program, in order) = queued input exactly once; display (+ drained) = bytes output exactly once. non-trivial = schedules with at least one hold");
+    let mut rep = Report::new("4 programs (GETC/OUT echo loop recording what it received; GETC xN then PUTS; a supervisor-mode KBSR/KBDR + DSR/DDR polling loop without the OS; OUT of 3 fixed bytes) x inputs of length 0-3; 'another thread' is played by the harness taking the real RwLock write guard: boundary mode (quick and thorough): before each step the holder is absent / holds the keyboard / holds the display / holds the keyboard and appends a byte on release / holds the display and drains it on release / holds the keyboard or the display as a reader (shared guard) / the holder of the keyboard or display lock dies while holding it (poisoned lock) / a device interrupt is requested (its ISR uses the supervisor stack); every pattern with <=2 (thorough 3) acting boundaries over the run, and ALL 2^n hold patterns over the first n=14 (thorough 18) boundaries of the single-byte programs; each run in lock-step with RefLC3 (which encodes the two known findings exactly: a DDR write under a held display lock is dropped, a KBDR read under a held keyboard lock returns the stale value and consumes nothing); attempt mode (thorough, hook H3): the lock is held at individual try_write attempts, every set of <=2 attempts. Oracle: bytes received (recorded by the program, in order) = queued input exactly once; display (+ drained) = bytes output exactly once. non-trivial = schedules with at least one hold");
     let progs: [usize; 4] = [0, 1, 2, 3];
     let maxk = ctx.pick(2usize, 3usize);
     for &prog in &progs { for init in inputs() {
@@ -231,14 +236,14 @@ pub fn run(ctx: &Ctx) -> Report {
         let base = match run_boundary(prog, &init, &vec![]) { Ok(o) => o, Err((s, d)) => { rep.acc.violation(s, format!("b:{prog}:{}:", hex(&init)), d); continue; } };
         if !init.is_empty() || prog == 3 { if let Err((s, d)) = judge(prog, &base, "no contention", false, false) { rep.acc.violation(s, format!("b:{prog}:{}:", hex(&init)), d); } }
         let nb = (base.steps as u64).min(ctx.pick(90, 140));
-        let slots = nb * 8;
+        let slots = nb * 9;
         for k in 1..=maxk {
             if k == 3 && nb > 60 { continue; }
             let total = slots.pow(k as u32);
             let init2 = init.clone();
             let r = sweep(ctx, total, 64, |i, acc| {
                 let Some(sel) = k_subsets(slots, k, i) else { return };
-                let sched: Sched = sel.iter().map(|s| ((s / 8) as u32, (s % 8) as u8 + 1)).collect();
+                let sched: Sched = sel.iter().map(|s| ((s / 9) as u32, (s % 9) as u8 + 1)).collect();
                 if sched.windows(2).any(|w| w[0].0 == w[1].0) { return; } // one action per boundary
                 if init2.is_empty() && prog != 3 && !sched.iter().any(|s| s.1 == 3) { return; } // no input at all: the program would wait forever by contract
                 acc.evals += 1; acc.traces += 1; acc.nontrivial += 1; acc.count(&format!("boundary_schedules_k{k}"), 1);
